@@ -190,7 +190,14 @@ impl Kernels {
             }
             Kind::Decomp => {
                 let (m, n) = (self.m, self.n);
-                let g: Grid<R> = build_grid_r::<R>(m, n, xs);
+                let g: Grid<R> = if self.r > 0 {
+                    // tall-thin shape (r > 0): column 0 fully symbolic, column 1 has r symbolic entries in rows m/3.. and
+                    // structural zeros elsewhere - a long column next to a very short one
+                    let i1 = m / 3;
+                    (0..m).map(|i| (0..n).map(|j| if j == 0 { xs[i].clone() } else if j == 1 && i >= i1 && i < i1 + self.r { xs[m + i - i1].clone() } else { R::zero() }).collect()).collect()
+                } else {
+                    build_grid_r::<R>(m, n, xs)
+                };
                 let a = if self.stored_zeros { sp_from(&g, m, n, true, None) } else { grid_to_sp(&g, m, n) };
                 let (p, q, blocks) = dir_sum_decomp(a.clone());
                 // reference permuted matrix: entry (i, j) -> (p(i), q(j))
@@ -320,7 +327,7 @@ impl Kernels {
                 }
             }
             Kind::Decomp => {
-                for i in 0..self.m * self.n {
+                for i in 0..(if self.r > 0 { self.m + self.r } else { self.m * self.n }) {
                     v.push(InputSpec::boxed(&format!("a{}", i), self.b));
                 }
             }
@@ -377,6 +384,11 @@ pub fn configs(tier: crate::registry::Tier, _seed: u64) -> Vec<crate::registry::
         for (m, n) in [(2, 2), (2, 3), (3, 2), (3, 3), (1, 3), (0, 2), (2, 0)] {
             v.push(entry(Kernels { ring: RingSel::Z, kind: Kind::Decomp, upper: false, r: 0, m, n, stored_zeros, b: 1 }, 8000, 90.0));
         }
+    }
+    // tall-thin: a 17-row column next to a 2-entry column (length-dependent code paths of the column-intersection test)
+    v.push(entry(Kernels { ring: RingSel::Z, kind: Kind::Decomp, upper: false, r: 2, m: 17, n: 2, stored_zeros: false, b: 1 }, 600, 60.0));
+    if tier == Tier::Thorough {
+        v.push(entry(Kernels { ring: RingSel::Z, kind: Kind::Decomp, upper: false, r: 3, m: 25, n: 3, stored_zeros: false, b: 1 }, 600, 120.0));
     }
     // units other than +-1: Z[i] (units +-1, +-i as a solver-side precondition) and Q (any non-zero diagonal)
     for ring in [RingSel::Gauss, RingSel::Q] {
